@@ -841,6 +841,11 @@ func splitOwner(s string) (owner, path string) {
 
 // typeFacts adds range facts for values read from memory / inputs.
 func (c *FnCtx) typeFacts(st *State, v *Val) {
+	if v.Typ != nil && (v.S == SStr || isSeq(v.S)) {
+		if at, ok := v.Typ.Underlying().(*types.Array); ok {
+			st.assume(tEq(c.seqLen(v), fmt.Sprint(at.Len()))) // an array value has the length of its type
+		}
+	}
 	if v.S == SInt && v.Typ != nil {
 		if b, ok := v.Typ.Underlying().(*types.Basic); ok && b.Info()&types.IsInteger != 0 {
 			if lo, hi, ok := intRange(v.Typ); ok {
